@@ -157,13 +157,21 @@ namespace occa {
       }
 
       bool withLauncher::isLastInnerLoop(forStatement &forSmnt) {
-        blockStatement &parent = *(forSmnt.up);
-        for(int smntIndex = forSmnt.childIndex()+1; smntIndex<parent.size(); smntIndex++) {
-          if (statementArray::from(*parent[smntIndex])
-                .flatFilterByAttribute("inner")
-                .length()) {
-            return false;
+        // An [@inner] loop can follow in the parent block or, when the loop
+        // sits in a nested block (if/else, plain block), in any enclosing
+        // block of the kernel
+        statement_t *smnt = &forSmnt;
+        while (smnt->up
+               && !(smnt->type() & statementType::functionDecl)) {
+          blockStatement &parent = *(smnt->up);
+          for(int smntIndex = smnt->childIndex()+1; smntIndex<parent.size(); smntIndex++) {
+            if (statementArray::from(*parent[smntIndex])
+                  .flatFilterByAttribute("inner")
+                  .length()) {
+              return false;
+            }
           }
+          smnt = &parent;
         }
         return true;
       }
